@@ -352,11 +352,12 @@ class IntV(Val):
     """integer with an (optional) affine symbolic value; nfft = exponent of the number NFFT it carries when it
     is used *as a number* (only NFFT itself has 1)."""
 
-    def __init__(self, a=None, taint=frozenset(), nfft=F(0), name=None):
+    def __init__(self, a=None, taint=frozenset(), nfft=F(0), name=None, sx=None):
         self.a = aff(a) if a is not None else None
         self.taint = taint
         self.nfft = nfft
         self.name = name
+        self.sx = sx            # exact value as a sympy expression when it is not affine (products of sizes)
 
     def __repr__(self):
         return 'Int(%s)' % (self.a if self.a is not None else (self.name or '?'))
@@ -558,6 +559,7 @@ def tonum(v):
         d['nfft'] = v.nfft
         n = Num(d, (), False, taint=v.taint, nonneg=False)
         n.ex = v.a
+        n.sx = v.sx
         return n
     if isinstance(v, BoolV):
         return Num(zero_deg(), (), False, taint=v.taint)
@@ -592,7 +594,7 @@ def tonum(v):
 def sym_of(v):
     """symbolic (sympy) value of a number used as a multiplier of an additive type; None if unknown"""
     if isinstance(v, IntV):
-        return v.a.to_sympy() if v.a is not None else None
+        return v.a.to_sympy() if v.a is not None else v.sx
     if isinstance(v, Const) and isinstance(v.v, (int, float)) and not isinstance(v.v, bool):
         return sp.nsimplify(v.v, rational=True)
     if isinstance(v, Num) and v.ex is not None:
